@@ -362,6 +362,56 @@ def drain_interleaving(sl):
     observe("a sample added while the queue is being drained is neither lost nor duplicated", sorted(ids) == list(range(1, n0 + 1)) + ([99] if st["done"] else []))
 
 
+def add_interleaving(sl):
+    """the dual of drain_interleaving: the worker actor drains (Sampler.samples) while the load generator is inside Sampler.add; the
+    drain is injected at a solver-chosen LINE event of the add in esrally/driver/driver.py (Sampler.add, Sample.__init__); code of the
+    standard library's queue runs under its own lock and is not interrupted"""
+    import sys as _sys
+
+    GHOST[0] = 0
+    n0 = concrete(fresh_int("samples_in_queue_before", 0, 2))
+    drv_file = driver.__file__
+
+    def mk():
+        sm = driver.Sampler(start_timestamp=0, buffer_size=100)
+        for i in range(n0):
+            sm.add(TASK, 0, metrics.SampleType.Normal, {"ghost": i + 1}, 1.0, 2.0, 0.1, 0.1, 0.1, None, 1, "docs", 1.0, 0.5)
+        return sm
+
+    def run(sm, k):
+        state = {"n": 0, "done": False, "drained": []}
+
+        def tr(frame, event, arg):
+            if frame.f_code.co_filename == drv_file:
+                if event == "line":
+                    state["n"] += 1
+                    if k is not None and state["n"] == k and not state["done"]:
+                        state["done"] = True
+                        _sys.settrace(None)
+                        state["drained"] = sm.samples
+                        _sys.settrace(tr)
+                return tr
+            return None
+
+        _sys.settrace(tr)
+        try:
+            sm.add(TASK, 0, metrics.SampleType.Normal, {"ghost": 99}, 1.0, 2.0, 0.1, 0.1, 0.1, None, 1, "docs", 1.0, 0.5)
+        finally:
+            _sys.settrace(None)
+        return state
+
+    lines = run(mk(), None)["n"]
+    k = concrete(fresh_int("worker_drains_at_line_event_of_the_add", 1, max(lines, 1)))
+    sm = mk()
+    st = run(sm, k)
+    rest = sm.samples
+    ids = [x.request_meta_data["ghost"] for x in st["drained"]] + [x.request_meta_data["ghost"] for x in rest]
+    core.note("line events in the add", lines)
+    core.note("drained during the add / afterwards", ([x.request_meta_data["ghost"] for x in st["drained"]], [x.request_meta_data["ghost"] for x in rest]))
+    core.trace("n", len(ids))
+    observe("a sample that is being added while the worker drains is neither lost nor duplicated", sorted(ids) == list(range(1, n0 + 1)) + [99])
+
+
 class _RcMetrics:
     def __init__(self, p):
         self.p = p
@@ -770,6 +820,10 @@ HARNESSES.append(Harness("drain_interleaving", drain_interleaving, "bounded-exha
                          stubs=["producer thread = an add() injected by sys.settrace at a line event inside Sampler.samples"],
                          bounds={"samples before": "0..2", "injection point": "every line event of the drain"},
                          doc="drain vs. concurrent add at statement granularity"))
+HARNESSES.append(Harness("add_interleaving", add_interleaving, "bounded-exhaustive", lambda tier: [{}], reads=[driver.Sampler.samples.fget, driver.Sampler.add],
+                         stubs=["consumer thread = a drain injected by sys.settrace at a line event inside Sampler.add / Sample.__init__"],
+                         bounds={"samples before": "0..2", "injection point": "every line event of the add in esrally/driver/driver.py"},
+                         doc="add vs. concurrent drain at statement granularity"))
 HARNESSES.append(Harness("adapter_wiring", adapter_wiring, "bounded-exhaustive", lambda tier: [{}],
                          reads=[driver.AsyncIoAdapter.run, driver.schedule_for, driver.AsyncExecutor.__call__, driver.Sampler.add, driver.Allocator.allocations.fget],
                          stubs=["EsClientFactory (client object remembering its client id)", "track.operation_parameters", "runner registry (stub runner reporting which client object it was given)"],
